@@ -72,6 +72,16 @@ class _OsProxy:
         _os.remove(path)
         self._env.after()
 
+    def replace(self, src, dst):
+        self._env.tick("replace")
+        _os.replace(src, dst)
+        self._env.after()
+
+    def rename(self, src, dst):
+        self._env.tick("rename")
+        _os.rename(src, dst)
+        self._env.after()
+
     def makedirs(self, path, exist_ok=False):
         self._env.tick("makedirs")
         _os.makedirs(path, exist_ok=exist_ok)
@@ -216,17 +226,23 @@ def fresh_process(module_names):
     importlib.invalidate_caches()
 
 
-def interferer_steps(path, texts, pyc_path=None):
-    """the write side of another process updating the same cache file: remove byte-code, truncate, writes"""
+def interferer_steps(path, texts, pyc_path=None, atomic=False):
+    """the write side of ANOTHER process updating the same cache file, in the protocol the code under test uses:
+    in place (remove byte-code, truncate, writes, close) or atomic (remove byte-code, private temporary file, writes,
+    close, os.replace)"""
     state = {}
+    target = path if not atomic else path + ".99999.tmp"
 
     def rm():
-        if pyc_path and _os.path.exists(pyc_path):
-            _os.remove(pyc_path)
+        try:
+            if pyc_path and _os.path.exists(pyc_path):
+                _os.remove(pyc_path)
+        except OSError:
+            pass
 
     def trunc():
         _os.makedirs(_os.path.dirname(path), exist_ok=True)
-        state["f"] = open(path, "w")
+        state["f"] = open(target, "w")
         state["f"].flush()
 
     def wr(t):
@@ -237,4 +253,7 @@ def interferer_steps(path, texts, pyc_path=None):
 
     def close():
         state["f"].close()
-    return [rm, trunc] + [wr(t) for t in texts] + [close]
+
+    def repl():
+        _os.replace(target, path)
+    return [rm, trunc] + [wr(t) for t in texts] + [close] + ([repl] if atomic else [])
